@@ -64,6 +64,7 @@ theorem toTermListFinite_eq (e : ExpDecayTerms α) :
     e.toTermListFinite (fun _ => false) =
       e.terms.flatMap ExpTerm.termList ++ e.centered.flatMap CenteredTerm.termList := rfl
 
+omit [Inhabited α] in
 theorem prodL_eq_prod (l : List α) : ExpDecayTerms.prodL l = l.prod := by
   unfold ExpDecayTerms.prodL
   rw [List.prod_eq_foldl]
